@@ -1,3 +1,4 @@
 import DurableModel.Ident
 import DurableModel.Lock
 import DurableModel.Batcher
+import DurableModel.Serdes
